@@ -7,6 +7,7 @@ import FrappyProofs.Lemmas.RatLawful
 import FrappyProofs.Lemmas.DatatypesCanon
 import FrappyProofs.Lemmas.DatatypesCall
 import FrappyProofs.Lemmas.RatGrid
+import FrappyProofs.Lemmas.DatatypesReval
 import FrappyModel.Generated.C01
 /-
 C01 — property theorems (nothing but property theorems and their non-vacuity examples).
@@ -48,6 +49,50 @@ theorem accept_sound (dt : DType F) (hwf : dt.WF) (j : JVal F) (prev : Option (P
   split at h
   · cases h
   · exact validate_sound dt hwf _ prev hprev r h
+
+/-! ## lengths of strings are counted in character points
+
+`minchars` / `maxchars` bound the number of code points (`String.length`), not the number of bytes of
+an encoding: the string type accepts exactly the strings of its declared value set, in all three
+entry points. -/
+
+/-- what a string type accepts is the string offered, and its number of code points lies within the limits -/
+theorem string_length_in_chars (minc maxc : Nat) (utf8 : Bool) (v : PVal F) (prev : Option (PVal F)) (r : PVal F)
+    (h : validate (.string minc maxc utf8) v prev = .ok r) :
+    ∃ s, v = .str s ∧ r = .str s ∧ minc ≤ s.length ∧ s.length ≤ maxc := by
+  simp only [validate, conv] at h
+  obtain ⟨s, hs, hr⟩ := map_ok h
+  have hin := (stringCall_sound hs).1
+  simp only [InSet, InSetG] at hin
+  exact ⟨s, (stringCall_sound hs).2, hr, hin.1, hin.2.1⟩
+
+/-- exact characterisation: a string is accepted (and returned as it is) iff it lies in the declared value set -
+`minc ≤ number of code points ≤ maxc`, ASCII only unless `isUTF8`, no NUL - whatever its encoded size -/
+theorem string_accepted_iff (minc maxc : Nat) (utf8 : Bool) (s : String) (prev : Option (PVal F)) :
+    validate (F := F) (.string minc maxc utf8) (.str s) prev = .ok (.str s) ↔
+      InSet (F := F) (.string minc maxc utf8) (.str s) := by
+  constructor
+  · intro h
+    simp only [validate, conv] at h
+    obtain ⟨t, ht, hr⟩ := map_ok h
+    cases hr
+    exact (stringCall_sound ht).1
+  · intro hin
+    simp only [validate, conv, stringCall_idem (F := F) hin]; rfl
+
+/-- the same through the wire (`import_value` then `validate`) -/
+theorem string_wire_length_in_chars (minc maxc : Nat) (utf8 : Bool) (j : JVal F) (prev : Option (PVal F)) (r : PVal F)
+    (h : acceptWire (.string minc maxc utf8) j prev = .ok r) :
+    ∃ s, j = .str s ∧ r = .str s ∧ minc ≤ s.length ∧ s.length ≤ maxc := by
+  unfold acceptWire at h
+  split at h
+  · cases h
+  · rename_i v hv
+    obtain ⟨s, hvs, hr, h1, h2⟩ := string_length_in_chars minc maxc utf8 v prev r h
+    have hd := importValue_denotes (.string minc maxc utf8) j v hv
+    subst hvs
+    cases j <;> simp only [WireDenotes] at hd
+    case str t => subst hd; exact ⟨_, rfl, hr, h1, h2⟩
 
 /-! ## the value accepted is the value offered -/
 
@@ -100,16 +145,50 @@ theorem revalidate_unchanged (dt : DType F) (hwf : dt.WF) (hgrid : GridExact dt)
 
 /-- the same statement without the grid hypothesis is not a consequence of the float laws (and is false
 for binary64 where `scale` is below the float spacing at the limits; the repaired `ScaledInteger.validate`
-removed the failing inputs the search found, see design notes) -/
+removed the failing inputs the search found, see design notes).  It quantifies over the whole declared
+value set; what the property demands is the statement about *validated* values below. -/
 def validate_idem_statement : Prop :=
   ∀ (F : Type) [FloatOps F] [LawfulFloatOps F] (dt : DType F), dt.WF → ∀ (r : PVal F), InSet dt r → Canon r →
     validate dt r none = .ok r ∧ validate dt r (some r) = .ok r
 
-/-- the conversion-only path: converting a converted value returns it unchanged.  `GridAll dt`: every
-finite grid value of every scaled type in the tree snaps to itself (holds over `Rat`; for binary64 it can
-fail for grid indices beyond 2^53 — `__call__` has no limits, so the hypothesis is on all grid values) -/
+/-- "validating an already validated value returns it unchanged", with no hypothesis on the tree -/
+def revalidate_unchanged_statement : Prop :=
+  ∀ (F : Type) [FloatOps F] [LawfulFloatOps F] (dt : DType F), dt.WF → ∀ (v : PVal F) (prev : Option (PVal F)),
+    (∀ p, prev = some p → Shaped dt p) → ∀ r, validate dt v prev = .ok r →
+      validate dt r none = .ok r ∧ validate dt r (some r) = .ok r
+
+/-- the proved part of `revalidate_unchanged_statement` (and, restricted to validated values, of
+`validate_idem_statement`): the only thing missing is ONE property of the float carrier, `SnapIdem F` - a finite
+value that came out of snapping to a grid (`y = round(x/scale)*scale`, `scale > 0` finite) snaps to itself.  No
+hypothesis on the tree (`GridExact` needed every grid value between the limits to be exact and the limits'
+grid values to be finite), none on the value set: the induction is over what `validate` did (the grid value
+of the offer, or the grid value of a limit it was clamped to).  `SnapIdem` is proved for `Rat`
+(`rat_snapIdem`); for binary64 it is not among the 27 laws - it is what the run tests on every accepted
+value (clause `idem`), and could fail only where `scale` is below the float spacing (grid indices beyond 2^53). -/
+theorem revalidate_unchanged_partial (hsnap : SnapIdem F) (dt : DType F) (hwf : dt.WF) (v : PVal F)
+    (prev : Option (PVal F)) (hprev : ∀ p, prev = some p → Shaped dt p) (r : PVal F)
+    (h : validate dt v prev = .ok r) : validate dt r none = .ok r ∧ validate dt r (some r) = .ok r :=
+  conv_reval hsnap dt v prev r hwf hprev h
+
+/-- the full statement over the exact carrier -/
+theorem revalidate_unchanged_rat (dt : DType Rat) (hwf : dt.WF) (v : PVal Rat) (prev : Option (PVal Rat))
+    (hprev : ∀ p, prev = some p → Shaped dt p) (r : PVal Rat) (h : validate dt v prev = .ok r) :
+    validate dt r none = .ok r ∧ validate dt r (some r) = .ok r :=
+  revalidate_unchanged_partial rat_snapIdem dt hwf v prev hprev r h
+
+/-- the conversion-only path: converting a converted value returns it unchanged.  `GridAll dt`: for every
+scaled type in the tree a finite value that came out of snapping snaps to itself (holds over `Rat`; for
+binary64 it could fail for grid indices beyond 2^53 — `__call__` has no limits) -/
 theorem call_idem (dt : DType F) (hwf : dt.WF) (hgrid : GridAll dt) (v r : PVal F) (h : call dt v = .ok r) :
     call dt r = .ok r := conv_call_idem dt v none r hwf hgrid h
+
+/-- `call_idem` from the same single carrier property -/
+theorem call_idem_of_snapIdem (hsnap : SnapIdem F) (dt : DType F) (hwf : dt.WF) (v r : PVal F)
+    (h : call dt v = .ok r) : call dt r = .ok r :=
+  call_idem dt hwf (gridAll_of_snapIdem hsnap dt hwf) v r h
+
+theorem call_idem_rat (dt : DType Rat) (hwf : dt.WF) (v r : PVal Rat) (h : call dt v = .ok r) : call dt r = .ok r :=
+  call_idem_of_snapIdem rat_snapIdem dt hwf v r h
 
 /-! ## never any other kind of exception -/
 
@@ -153,6 +232,118 @@ theorem denotesB_iff (dt : DType F) (prev : Option (PVal F)) (o r : PVal F) :
 
 theorem wireDenotesB_iff (dt : DType F) (j : JVal F) (v : PVal F) :
     wireDenotesB dt j v = true ↔ WireDenotes dt j v := decide_eq_true_iff
+
+/-! ## a `change` request: the glue around `import_value` and `validate`
+
+`changeValue dt j held` is what the dispatcher and the write wrapper do with the data of a `change` request
+for a parameter holding `held` (import, validate against `held`, validate once more). -/
+
+/-- the value stored by a `change` request lies in the declared value set -/
+theorem change_sound (dt : DType F) (hwf : dt.WF) (j : JVal F) (held r : PVal F)
+    (h : changeValue dt j held = .ok r) : InSet dt r := by
+  unfold changeValue at h
+  split at h
+  · cases h
+  · exact validate_sound dt hwf _ none (fun p hp => by cases hp) r h
+
+/-- a `change` request answers with a value or a bad-value error -/
+theorem change_total (dt : DType F) (j : JVal F) (held : PVal F) (c : String) :
+    changeValue dt j held ≠ .error (.other c) := by
+  unfold changeValue
+  split
+  · rename_i e he
+    intro hc
+    injection hc with hc
+    exact accept_total dt j (some held) c (by rw [he, hc])
+  · exact validate_total dt _ none c
+
+/-- the second validation (in the write wrapper) changes nothing: the value stored and reported is the value
+`import_value` + `validate(previous = value held)` accepted - under the carrier property `SnapIdem` -/
+theorem change_eq_accept (hsnap : SnapIdem F) (dt : DType F) (hwf : dt.WF) (j : JVal F) (held : PVal F)
+    (hheld : Shaped dt held) : changeValue dt j held = acceptWire dt j (some held) := by
+  unfold changeValue
+  cases h : acceptWire dt j (some held) with
+  | error e => rfl
+  | ok r =>
+    simp only
+    unfold acceptWire at h
+    split at h
+    · cases h
+    · exact (revalidate_unchanged_partial hsnap dt hwf _ (some held)
+        (fun p hp => by injection hp with hp; rw [← hp]; exact hheld) r h).1
+
+/-- the full clause for a `change` request -/
+def change_ok_statement : Prop :=
+  ∀ (F : Type) [FloatOps F] [LawfulFloatOps F] (dt : DType F), dt.WF → ∀ (j : JVal F) (held : PVal F), Shaped dt held →
+    ∀ r, changeValue dt j held = .ok r → ChangeOK dt j (some held) (.ok r)
+
+/-- proved under `SnapIdem F` (needed only for "denotes the value offered": without it the stored value is known
+to denote the value accepted by the first validation, not the offer itself); `change_sound` and `change_total`
+need no hypothesis -/
+theorem change_ok_partial (hsnap : SnapIdem F) (dt : DType F) (hwf : dt.WF) (j : JVal F) (held : PVal F)
+    (hheld : Shaped dt held) (r : PVal F) (h : changeValue dt j held = .ok r) : ChangeOK dt j (some held) (.ok r) := by
+  refine ⟨change_sound dt hwf j held r h, ?_⟩
+  rw [change_eq_accept hsnap dt hwf j held hheld] at h
+  exact accept_denotes dt hwf j (some held) (fun p hp => by injection hp with hp; rw [← hp]; exact hheld) r h
+
+/-- the hypothesis `Shaped dt held` of the `change` theorems is an invariant of the parameter: it survives every driver
+update (accepted or refused) and every `change` request (accepted or refused) -/
+theorem held_shaped_step (dt : DType F) (hwf : dt.WF) (held : PVal F) (h : Shaped dt held) (ev : ParamEvent F) :
+    Shaped dt (holdStep dt held ev) := by
+  cases ev with
+  | update v =>
+    simp only [holdStep]
+    split
+    · rename_i r hr; exact shaped_of_call dt v r hr
+    · exact h
+  | change j =>
+    simp only [holdStep]
+    split
+    · rename_i r hr; exact shaped_of_inSet dt r (change_sound dt hwf j held r hr)
+    · exact h
+
+theorem held_shaped (dt : DType F) (hwf : dt.WF) (held : PVal F) (h : Shaped dt held) (evs : List (ParamEvent F)) :
+    Shaped dt (holdRun dt held evs) := by
+  unfold holdRun
+  induction evs generalizing held with
+  | nil => exact h
+  | cons ev evs ih => exact ih (holdStep dt held ev) (held_shaped_step dt hwf held h ev)
+
+/-- after ANY history of driver updates and change requests (starting from a shaped value, e.g. any value of the set
+or anything `__call__` returned) a `change` request obeys the clause - under `SnapIdem` -/
+theorem change_ok_always_partial (hsnap : SnapIdem F) (dt : DType F) (hwf : dt.WF) (held0 : PVal F)
+    (h0 : Shaped dt held0) (evs : List (ParamEvent F)) (j : JVal F) (r : PVal F)
+    (h : changeValue dt j (holdRun dt held0 evs) = .ok r) : ChangeOK dt j (some (holdRun dt held0 evs)) (.ok r) :=
+  change_ok_partial hsnap dt hwf j _ (held_shaped dt hwf held0 h0 evs) r h
+
+/-- a `do` request: the argument handed to the command function (`Command.do`, params.py:533-538: import, validate
+without `previous`) lies in the declared value set of the argument type and denotes the value offered - no hypothesis -/
+theorem command_argument_ok (dt : DType F) (hwf : dt.WF) (j : JVal F) (r : PVal F)
+    (h : acceptWire dt j none = .ok r) : ChangeOK dt j none (.ok r) :=
+  ⟨accept_sound dt hwf j none (fun p hp => by cases hp) r h, accept_denotes dt hwf j none (fun p hp => by cases hp) r h⟩
+
+/-- the monitor of the request clause is sound: an empty verdict means the clause holds for that outcome -/
+theorem judgeChange_sound (dt : DType F) (j : JVal F) (held : Option (PVal F)) (hint : Option (PVal F)) (out : Outcome F)
+    (h : judgeChange dt j held hint out = []) : ChangeOK dt j held out := by
+  cases out with
+  | bad => trivial
+  | other c => simp [judgeChange] at h
+  | ok r =>
+    simp only [judgeChange, List.append_eq_nil_iff] at h
+    obtain ⟨h1, h2⟩ := h
+    have hin : inSetB dt r = true := by
+      by_cases hb : inSetB dt r = true
+      · exact hb
+      · simp [hb] at h1
+    refine ⟨inSetB_sound dt r hin, ?_⟩
+    cases hint with
+    | none => simp at h2
+    | some v =>
+      simp only at h2
+      by_cases hb : (wireDenotesB dt j v && denotesB dt held v r) = true
+      · simp only [Bool.and_eq_true] at hb
+        exact ⟨v, (wireDenotesB_iff dt j v).1 hb.1, (denotesB_iff dt held v r).1 hb.2⟩
+      · simp [hb] at h2
 
 /-! ## non-vacuity: the exact carrier `Rat` is lawful, and a nested tree over it -/
 
@@ -210,6 +401,87 @@ theorem exTree_gridAll : GridAll exTree := by
 example : ∀ v r, call exTree v = .ok r → call exTree r = .ok r :=
   fun v r h => call_idem exTree exTree_wf exTree_gridAll v r h
 
+/-- `revalidate_unchanged_partial` / `revalidate_unchanged_rat` on the example: whatever the model accepts for the
+nested tree (here the request of the first example, with the previous value) is returned unchanged -/
+example : ∃ r, acceptWire exTree exWire (some exPrev) = .ok r ∧
+    validate exTree r none = .ok r ∧ validate exTree r (some r) = .ok r := by
+  have hp : ∀ p, some exPrev = some p → Shaped exTree p := fun p hp => by
+    injection hp with hp; rw [← hp]; exact shaped_of_inSet _ _ exPrev_inSet
+  cases h : acceptWire exTree exWire (some exPrev) with
+  | error e =>
+    have hb : (match acceptWire exTree exWire (some exPrev) with
+      | .ok _ => true
+      | _ => false) = true := by decide +kernel
+    rw [h] at hb; cases hb
+  | ok r =>
+    refine ⟨r, rfl, ?_⟩
+    unfold acceptWire at h
+    split at h
+    · cases h
+    · exact revalidate_unchanged_rat exTree exTree_wf _ _ hp r h
+
+/-- a clamped value: `0.3 - 0.04` offered to `ScaledInteger(0.1, 0.3, 10)`-like limits is outside by less than one
+step, returned as the limit's grid value, and that is returned unchanged -/
+example : (match validate (F := Rat) (.scaled (1/10) (3/10) 10 (1/10) 0) (.float (26/100)) none with
+    | .ok r => PVal.same r (.float (3/10))
+    | _ => false) = true := by
+  decide +kernel
+
+example : ∀ v prev r, (∀ p, prev = some p → Shaped (.scaled (1/10 : Rat) (3/10) 10 (1/10) 0) p) →
+    validate (F := Rat) (.scaled (1/10) (3/10) 10 (1/10) 0) v prev = .ok r →
+    validate (F := Rat) (.scaled (1/10) (3/10) 10 (1/10) 0) r none = .ok r ∧
+    validate (F := Rat) (.scaled (1/10) (3/10) 10 (1/10) 0) r (some r) = .ok r :=
+  fun v prev r hp h => revalidate_unchanged_rat _ (by simp only [DType.WF]; decide +kernel) v prev hp r h
+
+/-- a `change` request on the example (hypotheses of `change_sound`, `change_ok_partial`, `change_eq_accept` met):
+the node stores the merged struct; the monitor accepts that outcome with the imported value as witness, and flags
+a stored value outside the limits (`b = 50`) -/
+example : ∃ r, changeValue exTree exWire exPrev = .ok r ∧ ChangeOK exTree exWire (some exPrev) (.ok r) ∧
+    PVal.same r exResult = true := by
+  have hb : (match changeValue exTree exWire exPrev with
+      | .ok r => PVal.same r exResult
+      | _ => false) = true := by decide +kernel
+  cases h : changeValue exTree exWire exPrev with
+  | error e => rw [h] at hb; cases hb
+  | ok r =>
+    rw [h] at hb
+    exact ⟨r, rfl, change_ok_partial rat_snapIdem exTree exTree_wf exWire exPrev (shaped_of_inSet _ _ exPrev_inSet) r h, hb⟩
+
+example : (match importValue exTree exWire with
+    | .ok v => (judgeChange exTree exWire (some exPrev) (some v) (.ok exResult)).isEmpty &&
+        (judgeChange exTree exWire (some exPrev) (some v) (.ok exHeld)).contains "inset:change" &&
+        (judgeChange exTree exWire (some exPrev) none (.ok exResult)).contains "denotes:change"
+    | _ => false) = true := by
+  decide +kernel
+
+/-- a history on the example: a driver reports `b = 50` (outside the limits, accepted by `__call__`), a client changes
+`b`, then offers `exWire`: the invariant and the clause hold at the end -/
+example : ∃ r, changeValue exTree exWire
+      (holdRun exTree exPrev [.update exHeld, .change (.obj [("a", .arr []), ("b", .int 1), ("c", .int 0)])]) = .ok r ∧
+    ChangeOK exTree exWire
+      (some (holdRun exTree exPrev [.update exHeld, .change (.obj [("a", .arr []), ("b", .int 1), ("c", .int 0)])])) (.ok r) := by
+  cases h : changeValue exTree exWire
+      (holdRun exTree exPrev [.update exHeld, .change (.obj [("a", .arr []), ("b", .int 1), ("c", .int 0)])]) with
+  | error e =>
+    have hb : (match changeValue exTree exWire
+        (holdRun exTree exPrev [.update exHeld, .change (.obj [("a", .arr []), ("b", .int 1), ("c", .int 0)])]) with
+      | .ok _ => true
+      | _ => false) = true := by decide +kernel
+    rw [h] at hb; cases hb
+  | ok r =>
+    exact ⟨r, rfl, change_ok_always_partial rat_snapIdem exTree exTree_wf exPrev (shaped_of_inSet _ _ exPrev_inSet) _ _ r h⟩
+
+/-- `command_argument_ok` on the example: the complete struct offered as the argument of a command -/
+example : ∃ r, acceptWire exTree (.obj [("a", .arr [.int 3]), ("b", .int 1), ("c", .str "off")]) none = .ok r ∧
+    ChangeOK exTree (.obj [("a", .arr [.int 3]), ("b", .int 1), ("c", .str "off")]) none (.ok r) := by
+  cases h : acceptWire exTree (.obj [("a", .arr [.int 3]), ("b", .int 1), ("c", .str "off")]) none with
+  | error e =>
+    have hb : (match acceptWire exTree (.obj [("a", .arr [.int 3]), ("b", .int 1), ("c", .str "off")]) none with
+      | .ok _ => true
+      | _ => false) = true := by decide +kernel
+    rw [h] at hb; cases hb
+  | ok r => exact ⟨r, rfl, command_argument_ok exTree exTree_wf _ r h⟩
+
 /-- a rejected request: a JSON string offered to the scaled elements is a bad-value error, not a number -/
 example : (match acceptWire exTree (.obj [("a", .arr [.str "5"]), ("c", .int 1)]) none with
     | .error .wrongType => true
@@ -225,6 +497,27 @@ theorem exTree_gridExact : GridExact exTree := by
 example : validate exTree exResult none = .ok exResult ∧ validate exTree exResult (some exResult) = .ok exResult :=
   validate_idem exTree exTree_wf exTree_gridExact exResult (inSetB_sound _ _ (by decide +kernel))
     (by simp only [exResult, Canon, CanonFields, CanonList]; decide +kernel)
+
+/-- lengths in character points: two characters that need four bytes in UTF-8 are too short for a string type
+with `minchars = 3, maxchars = 4`; four characters (eight bytes) are accepted and returned -/
+example : "äö".length = 2 ∧ "äö".utf8ByteSize = 4 ∧ "äöüß".length = 4 ∧ "äöüß".utf8ByteSize = 8 ∧
+    (match validate (F := Rat) (.string 3 4 true) (.str "äö") none with
+      | .error .range => true
+      | _ => false) = true := by
+  decide +kernel
+
+theorem exString_inSet : InSet (F := Rat) (.string 3 4 true) (.str "äöüß") := inSetB_sound _ _ (by decide +kernel)
+
+example : validate (F := Rat) (.string 3 4 true) (.str "äöüß") none = .ok (.str "äöüß") :=
+  (string_accepted_iff 3 4 true "äöüß" none).2 exString_inSet
+
+example : ∃ s, (PVal.str "äöüß" : PVal Rat) = .str s ∧ (PVal.str "äöüß" : PVal Rat) = .str s ∧ 3 ≤ s.length ∧ s.length ≤ 4 :=
+  string_length_in_chars (F := Rat) 3 4 true _ none _ ((string_accepted_iff 3 4 true "äöüß" none).2 exString_inSet)
+
+example : (match acceptWire (F := Rat) (.string 3 4 true) (.str "äöüß") none, acceptWire (F := Rat) (.string 3 4 true) (.str "€") none with
+    | .ok _, .error .range => true
+    | _, _ => false) = true := by
+  decide +kernel
 
 /-! ## constants of the source -/
 
